@@ -257,6 +257,11 @@ def _case(arg) -> Dict[str, Any]:
             r0.append(synth.host_op(f"wide::op_{k:04d}", t_first - 3 * (k + 1), 2, tid=77))
         r1 = gen.gen_trace_set(seed + 1, n_ranks=1, **{**kw, "step_base": 11, "noncomplete_events": False})[0]
         per_rank = {0: r0, 1: r1}
+    if seed % 7 == 5:
+        for evs in per_rank.values():  # "ProfilerStep #12": the spelling with blanks that the iteration assignment accepts as well
+            for e in evs:
+                if str(e.get("name", "")).startswith("ProfilerStep#"):
+                    e["name"] = e["name"].replace("ProfilerStep#", "ProfilerStep #")
     if seed % 5 == 0 and steps >= 2:  # an event starting exactly at the end of the last step
         for evs in per_rank.values():
             ps = [e for e in evs if str(e.get("name", "")).startswith("ProfilerStep")]
